@@ -163,6 +163,11 @@ func TestC13_AuthorizeValidation(t *testing.T) {
 		if openid && rapid.IntRange(0, 2).Draw(rt, "withRequestObject") == 0 {
 			objKind = rapid.SampledFrom([]string{"rs256-registered", "rs256-registered", "es256-registered", "rs256-unregistered", "rs256-other-clients-key", "alg-none", "hs256", "garbage", "rs256-wrong-kid"}).Draw(rt, "requestObject")
 			objState = "object-state-" + rapid.StringMatching("[a-z]{8}").Draw(rt, "objState")
+			if rapid.IntRange(0, 3).Draw(rt, "shortObjectState") == 0 {
+				// the state that is validated must be the state that is used: a signed object may carry a short one
+				objState = rapid.SampledFrom([]string{"x", "o1", "obj4567"}).Draw(rt, "shortState")
+				h.Label("request-object-with-short-state")
+			}
 			claims := map[string]interface{}{"state": objState, "nonce": "object-nonce-0123456789", "iss": "c13", "aud": h.Issuer, "response_type": rtype, "client_id": "c13"}
 			var obj string
 			alg := ""
